@@ -3,6 +3,7 @@ package goat
 import (
 	"context"
 	"fmt"
+	"math"
 	"reflect"
 	"strconv"
 	"strings"
@@ -622,7 +623,13 @@ func parseGrpcTimeout(timeout string) (time.Duration, bool) {
 	}
 	suffix := timeout[len(timeout)-1]
 
-	val, err := strconv.ParseInt(timeout[:len(timeout)-1], 10, 64)
+	digits := timeout[:len(timeout)-1]
+	for i := 0; i < len(digits); i++ {
+		if digits[i] < '0' || digits[i] > '9' {
+			return 0, false
+		}
+	}
+	val, err := strconv.ParseInt(digits, 10, 64)
 	if err != nil {
 		return 0, false
 	}
@@ -649,6 +656,10 @@ func parseGrpcTimeout(timeout string) (time.Duration, bool) {
 		return 0, false
 	}
 
+	if val > math.MaxInt64/int64(unit) {
+		// Would overflow: saturate rather than wrap to a short or negative timeout.
+		return time.Duration(math.MaxInt64), true
+	}
 	return time.Duration(val) * unit, true
 }
 
